@@ -8,6 +8,7 @@ package strategy
 import (
 	"context"
 	"fmt"
+	"sort"
 	"time"
 
 	corev1 "k8s.io/api/core/v1"
@@ -157,6 +158,12 @@ func ManageDeployment(client runtimeclient.Client, daemonset *datadoghqv1alpha1.
 	// if new nodes join in the meantime.
 	// When frozen, we stop both the deletion and the creation of new pods.
 	if !result.IsPaused && !result.IsFrozen {
+		// Replace the pods that are already unavailable first: deleting them does not consume the
+		// maxUnavailable budget, whereas picking available pods in (random) map order could.
+		sort.SliceStable(allPodToDelete, func(i, j int) bool {
+			return !podutils.IsPodAvailable(params.PodByNodeName[allPodToDelete[i]], 0, metaNow) &&
+				podutils.IsPodAvailable(params.PodByNodeName[allPodToDelete[j]], 0, metaNow)
+		})
 		result.PodsToDelete = allPodToDelete[:nbPodToDeleteWithConstraint]
 	}
 	if !result.IsFrozen {
